@@ -125,6 +125,8 @@ class Scheduler:
             elif st.status == BLOCKED_COND:
                 if st.cond():
                     out.append((st, "run"))
+                elif st.may_time_out:
+                    out.append((st, "timeout"))
         return out
 
     def _abort(self, kind, detail):
@@ -237,6 +239,7 @@ class Scheduler:
             return
         me.status = BLOCKED_COND
         me.cond = cond
+        me.may_time_out = False
         try:
             self._switch(me)
         finally:
@@ -382,3 +385,63 @@ class SchedQueue:
 
     def qsize(self):
         return len(self._items)
+
+
+class SchedEvent:
+    """Drop-in for threading.Event inside auditok.workers (a stop flag is a natural alternative to a stop message):
+    set / clear / is_set are scheduling points, wait() blocks in logical time and wait(timeout) may time out as a
+    scheduling decision.  From an unmanaged thread it behaves like a plain event."""
+
+    def __init__(self):
+        self.sched = SchedQueue.current_scheduler
+        self._flag = False
+        self._real = threading.Event()
+
+    def _managed(self):
+        s = self.sched
+        return s is not None and s.managed()
+
+    def is_set(self):
+        if self._managed():
+            self.sched.yield_point("event-is_set")
+        return self._flag
+
+    isSet = is_set
+
+    def set(self):
+        if self._managed():
+            s = self.sched
+            s.yield_point("event-set")
+            self._flag = True
+            s.last_progress = s.steps
+            hook = getattr(s, "on_signal", None)
+            if hook is not None:
+                hook(self)
+        self._flag = True
+        self._real.set()
+
+    def clear(self):
+        if self._managed():
+            self.sched.yield_point("event-clear")
+        self._flag = False
+        self._real.clear()
+
+    def wait(self, timeout=None):
+        if not self._managed():
+            return self._real.wait(timeout)
+        s = self.sched
+        me = s.me()
+        s.yield_point("event-wait")
+        if self._flag:
+            return True
+        me.status = BLOCKED_COND
+        me.cond = lambda: self._flag
+        me.may_time_out = timeout is not None
+        me.timeout_fired = False
+        try:
+            s._switch(me)
+        finally:
+            me.status = RUNNABLE
+            me.cond = None
+        me.timeout_fired = False
+        return self._flag
